@@ -21,6 +21,7 @@ import z3
 
 from ..core import Eq, Fail, Note
 from .. import pat, ops, bv
+from .. import coexist
 from ..kapi import get_alg, mv, coeffs, mv_eq_claims, eq_claims, kmap, twice_on_wrapper
 
 PROP = 'C03'
@@ -116,10 +117,14 @@ def cases(tier, seed):
         R = pat.RND(d, 8, rng, max_len=6)
         for j in range(4):
             add(cfg, R[2 * j], R[2 * j + 1], defn=(j == 0))
+    # algebras coexisting in one process (shared blade names, different numbering / metric / options)
+    out += coexist.cases(tier, seed, 303, n_quick=20)
     return out
 
 
 def run_case(desc, V):
+    if desc['kind'] == 'coexist':
+        return coexist.run(desc, V, binary=('op', 'ip', 'lc', 'rc', 'sp', 'cp', 'acp'), unary=())
     if desc.get('fresh'):
         from ..kapi import make_alg
         return _body(desc, V, make_alg(desc['cfg']))
